@@ -1,15 +1,19 @@
 #!/bin/bash
+# SWEEP_DIR=/tmp/sweepN tools/sweep_copy.sh [names...]  (several copies may run side by side on disjoint name lists)
 # tools/sweep_copy.sh [names...] — run tools/sweep_mutants.sh on a scratch copy (/tmp/sweep/verif + a worktree of /repo's HEAD at
 # /tmp/sweep/repo) so that the ~2 h sweep over every seeded change does not block work in /verif and /repo.
 # Results: /tmp/sweep/verif/.build/mutant_sweep.jsonl (copy it to /verif/.build/ and run tools/update_meta.py).
 # Remove /tmp/sweep afterwards (git -C /repo worktree remove --force /tmp/sweep/repo; rm -rf /tmp/sweep).
 set -u
-S=/tmp/sweep
+S=${SWEEP_DIR:-/tmp/sweep}
 mkdir -p $S
 rsync -a --delete --exclude .build --exclude .git --exclude replays /verif/ $S/verif/
 [ -d $S/repo ] || git -C /repo worktree add --detach $S/repo HEAD >/dev/null 2>&1
 git -C $S/repo checkout -q --detach "$(git -C /repo rev-parse HEAD)"
 sed -i "s|path = \"/repo\"|path = \"$S/repo\"|" $S/verif/harness/Cargo.toml
+# the harness pins its target dir to /verif/.build/native: the copy must build into its own
+sed -i "s|target-dir = \"/verif/.build/native\"|target-dir = \"$S/verif/.build/native\"|" $S/verif/harness/.cargo/config.toml
+grep -q "$S/verif/.build/native" $S/verif/harness/.cargo/config.toml || { echo "target-dir not redirected"; exit 9; }
 export DGV_VERIF_DIR=$S/verif DGV_REPO_DIR=$S/repo
 mkdir -p $S/verif/.build
 cd $S/verif && tools/sweep_mutants.sh "$@"
